@@ -51,6 +51,10 @@ def identity(v):
 def boom():
     return [1, 2][9]
 
+def leave():
+    import sys
+    sys.exit(3)
+
 def add(a, b):
     return a + b
 
@@ -95,6 +99,7 @@ BOUNDARY_PAIRS = [('1.0', '1.0004'), ('1.0', '1.002'), ('1.0004', '0.9996'), ('2
 BOUNDARY_ASSERTIONS = ['assert_equal', 'assert_not_equal', 'assert_in', 'assert_not_in', 'assert_contains_subset', 'assert_not_contains_subset',
                        'assert_almost_equal', 'assert_not_almost_equal', 'assert_less', 'assert_greater_equal', 'assert_less_equal', 'assert_greater']
 ERROR_OPERAND = '<error-result-of-failing-call>'
+EXIT_OPERAND = '<result-of-a-call-that-exits>'
 
 BINARY = ['assert_equal', 'assert_not_equal', 'assert_less', 'assert_less_equal', 'assert_greater', 'assert_greater_equal',
           'assert_in', 'assert_not_in', 'assert_contains_subset', 'assert_not_contains_subset', 'assert_is', 'assert_is_not',
@@ -367,8 +372,8 @@ class Harness:
         """-> (raw, proxy)"""
         if expr in self.cache:
             return self.cache[expr]
-        if expr == ERROR_OPERAND:
-            p = self.sbx.call('boom')
+        if expr in (ERROR_OPERAND, EXIT_OPERAND):
+            p = self.sbx.call('boom' if expr == ERROR_OPERAND else 'leave')
             raw = unwrap(p)
         else:
             p = self.sbx.evaluate(expr) if len(self.cache) % 2 else self.sbx.call('identity', args_locals=[expr])
@@ -403,8 +408,8 @@ class Harness:
 
 def expected_of(name, a_raw, b_raw, a_expr, b_expr):
     """-> 'silent' | 'fails' | 'open' , reason"""
-    if isinstance(a_raw, BaseException) and a_expr == ERROR_OPERAND or isinstance(b_raw, BaseException) and b_expr == ERROR_OPERAND:
-        return 'fails', 'error-result-operand'
+    if isinstance(a_raw, BaseException) and a_expr in (ERROR_OPERAND, EXIT_OPERAND) or isinstance(b_raw, BaseException) and b_expr in (ERROR_OPERAND, EXIT_OPERAND):
+        return 'fails', 'error-result-operand' if EXIT_OPERAND not in (a_expr, b_expr) else 'exit-result-operand'
     if isinstance(a_raw, Exception) or isinstance(b_raw, Exception):
         # an exception VALUE as operand: the statement says operands that are errors count as not holding
         return 'fails', 'exception-object-operand'
@@ -446,6 +451,19 @@ def check_cell(ctx, h, name, a_expr, b_expr):
         ctx.count('cells_checked')
         ctx.case('%s|%s|%s|%s' % (name, a_expr, b_expr, wname))
     case = {'assertion': name, 'left': a_expr, 'right': b_expr}
+    h.kw_turn = getattr(h, 'kw_turn', 0) + 1
+    if h.kw_turn % 9 == 0:
+        # the documented keyword arguments that only describe the feedback (explanation=, context=, assertion=) - and delta=None,
+        # documented as "the default tolerance" - change nothing about the verdict
+        options = [('explanation', {'explanation': 'Because it should.'}), ('context', {'context': 'In this situation.'}), ('context-off', {'context': False}),
+                   ('assertion', {'assertion': 'It should be so.'})]
+        if name in ('assert_equal', 'assert_not_equal'):
+            options.append(('delta-none', {'delta': None}))
+        oname, kw = options[(h.kw_turn // 9) % len(options)]
+        o = h.outcome(name, a_raw, b_raw, **kw)
+        ctx.count('cells_checked_with_describing_keywords')
+        if o != outcomes['raw/raw']:
+            ctx.violation('C07|%s|keyword-%s-changes-outcome' % (name, oname), dict(case, keyword=oname), 'without it: %s; with it: %s' % (outcomes['raw/raw'], o))
     sig = '%s,%s' % (kind_of(a_raw), kind_of(b_raw))
     ctx.seen('assertions', name)
     # ---- oracle ------------------------------------------------------------------------------------------
@@ -609,6 +627,21 @@ def check_output_assertions(ctx, h):
                     if o != exp:
                         ctx.violation('C07|%s|expected-%s|got-%s|%s' % (name, exp, o.split(':')[0], 'valid-regex' if rx_ok else 'invalid-regex'),
                                       {'assertion': name, 'printed': printed, 'regex': text}, o)
+    # the expected text given as a number (the comparison is with its text)
+    for arg, text in (('1.5', 1.5), ('12', 12), ('12', 13), ('none', None), ('true', True)):
+        p = h.sbx.call('shout', arg)
+        printed = arg.upper()
+        eq = norm_string(printed) == norm_string(str(text))
+        contains = str(text).lower() in printed.lower()
+        for name, holds in (('assert_output', eq), ('assert_not_output', not eq), ('assert_output_contains', contains), ('assert_not_output_contains', not contains)):
+            o = h.outcome(name, p, text)
+            ctx.count('cells_checked')
+            ctx.count('output_cells')
+            ctx.case('%s|%r|%r|non-string' % (name, arg, text))
+            exp = 'silent' if holds else 'fails'
+            if o != exp:
+                ctx.violation('C07|%s|expected-%s|got-%s|expected-text-is-not-a-string' % (name, exp, o.split(':')[0]),
+                              {'assertion': name, 'printed': printed, 'text': repr(text)}, o)
     # an execution that failed: every output assertion and its negation... only the positive ones must fail (error operand)
     p = h.sbx.call('boom')
     for name in ('assert_output', 'assert_output_contains'):
@@ -698,6 +731,51 @@ def check_type_names_across_submissions(ctx):
                                        'submission': SUBMISSIONS_NAMING_TYPES[si], 'turn': turn}, o)
 
 
+def check_nested_groups(ctx):
+    """an assertion that fails inside a group inside a group (or a unit_test inside a group) still produces failing feedback:
+    the resolved result is not 'correct'"""
+    from pedal.core.commands import clear_report, contextualize_report
+    from pedal.sandbox import commands as sbx
+    import pedal.assertions.runtime as rt
+    from pedal.assertions.commands import unit_test
+    from pedal.resolvers import simple
+    shapes = {
+        'group-in-group': lambda ok: _nest(lambda: rt.assert_equal(sbx.call('add', 1, 2), 3 if ok else 4)),
+        'group-in-group-in-group': lambda ok: _nest(lambda: _nest(lambda: rt.assert_equal(sbx.call('add', 1, 2), 3 if ok else 4))),
+        'unit_test-in-group': lambda ok: _nest(lambda: unit_test('add', ((1, 2), 3 if ok else 4))),
+        'second-inner-group-fails': lambda ok: _nest(lambda: (_nest(lambda: rt.assert_equal(sbx.call('add', 1, 1), 2)),
+                                                                _nest(lambda: rt.assert_equal(sbx.call('add', 1, 2), 3 if ok else 4)))),
+        'plain-group': lambda ok: _nest(lambda: None) if ok else None,
+    }
+    for sname, build in sorted(shapes.items()):
+        for ok in (True, False):
+            if sname == 'plain-group' and not ok:
+                continue
+            clear_report()
+            contextualize_report(STUDENT)
+            sbx.run()
+            case = {'scenario': 'nested-groups', 'shape': sname, 'inner_assertion_holds': ok}
+            try:
+                build(ok)
+                final = simple.resolve()
+            except Exception as e:
+                ctx.violation('C07|nested-groups-raised|%s|%s' % (sname, type(e).__name__), case, traceback.format_exc()[-400:])
+                continue
+            ctx.count('cells_checked')
+            ctx.count('nested_group_shapes_checked')
+            ctx.case('nested:%s:%s' % (sname, ok))
+            if bool(final.correct) != ok:
+                ctx.violation('C07|failing-assertion-in-a-nested-group-%s' % ('hidden' if not ok else 'reported-although-it-holds'), case,
+                              'the inner assertion %s; the resolved result says correct=%r (%r)' % ('holds' if ok else 'fails', final.correct, final.title))
+
+
+def _nest(body):
+    from pedal.assertions.runtime import assert_group
+    with assert_group('level') as g:
+        body()
+    return g
+
+
 UNIT_CASES = [((1, 2), 3, True), ((1, 2), 4, False), ((0, 0), 0, True), ((-1, 1), 0, True), ((1, 'a'), 0, False), (("'a'", "'b'"), 'ab', None),
               (('a', 'b'), 'ab', True), ((1.0004, 0), 1.0, True), ((1, 2.5), 3.5, True), ((2, 2), 5, False), (([1], [2]), [1, 2], True),
               ((1,), 0, False), ((None, 1), 1, False)]
@@ -750,7 +828,7 @@ def check_unit_tests(ctx, h, rng, n):
 
 def all_cells():
     cells = []
-    pool = VALUES + [ERROR_OPERAND]
+    pool = VALUES + [ERROR_OPERAND, EXIT_OPERAND]
     for name in BINARY:
         if name in ('assert_type', 'assert_not_type'):
             for a in pool:
@@ -796,7 +874,7 @@ def run(ctx):
             check_negation(ctx, h, name, a, b, r[0], r[1])
             if name == 'assert_equal':
                 check_symmetry(ctx, h, a, b)
-    pool = VALUES + [ERROR_OPERAND]
+    pool = VALUES + [ERROR_OPERAND, EXIT_OPERAND]
     for i, name in enumerate(UNARY):
         for j, a in enumerate(pool):
             if (i * len(pool) + j) % ctx.nshards == ctx.shard:
@@ -808,6 +886,8 @@ def run(ctx):
         check_output_history(ctx)
     if ctx.shard % 4 == 2:
         check_type_names_across_submissions(ctx)
+    if ctx.shard % 4 == 3:
+        check_nested_groups(ctx)
     if ctx.shard % 4 in (2, 3):
         # the instructor cleared the sandbox's history of executions (clear_context / clear_sandbox keep the numbering going):
         # results obtained before AND after that are operands like any other
@@ -834,6 +914,8 @@ def run(ctx):
 def replay(ctx, case):
     if case.get('scenario') == 'output-history':
         return check_output_history(ctx)
+    if case.get('scenario') == 'nested-groups':
+        return check_nested_groups(ctx)
     if case.get('scenario') == 'type-names-across-submissions':
         return check_type_names_across_submissions(ctx)
     h = Harness()
